@@ -136,6 +136,7 @@ type Ctx struct {
 	cur      atomic.Pointer[curCase]
 	curIdx   atomic.Int64
 	ticks    atomic.Int64
+	slow     atomic.Int64 // AllowSlow: seconds the current case may take (0 = default)
 	active   atomic.Bool
 	deadline time.Time
 	expired  atomic.Bool
@@ -157,6 +158,7 @@ func (c *Ctx) Mine(i int64) bool {
 // Case publishes the case the worker is on (heartbeat for the hang watchdog).
 // descr is only called if the case hangs or kills the process.
 func (c *Ctx) Case(idx int64, descr func() json.RawMessage) {
+	c.slow.Store(0)
 	c.cur.Store(&curCase{idx: idx, descr: descr})
 	c.curIdx.Store(idx)
 	c.ticks.Add(1)
@@ -169,6 +171,7 @@ func (c *Ctx) Case(idx int64, descr func() json.RawMessage) {
 // CaseIdx is the allocation-free heartbeat for enumerations whose cases can be
 // rebuilt from their index through c.Describe.
 func (c *Ctx) CaseIdx(idx int64) {
+	c.slow.Store(0)
 	c.curIdx.Store(idx)
 	c.ticks.Add(1)
 	c.active.Store(true)
@@ -196,6 +199,11 @@ func (c *Ctx) traceCase(idx int64, descr func() json.RawMessage) {
 	_ = c.trace.Truncate(0)
 	_, _ = c.trace.WriteAt(b, 0)
 }
+
+// AllowSlow gives the case just published more time than the default 20 s before the watchdog
+// calls it a hang (a case that is slow by design, e.g. recursion down to the interpreter's own
+// limit: seconds on an idle machine, much longer on a loaded one).  Reset by the next case.
+func (c *Ctx) AllowSlow(seconds int64) { c.slow.Store(seconds) }
 
 // Idle tells the watchdog that no case is in flight (e.g. while merging).
 func (c *Ctx) Idle() { c.active.Store(false); c.ticks.Add(1) }
@@ -363,7 +371,11 @@ func RunWorker(ch *Check, tier string, seed int64, shard, nshards int, resume, u
 			if t := c.ticks.Load(); t != lastTick {
 				lastTick, lastChange = t, time.Now()
 			}
-			stuck := c.active.Load() && time.Since(lastChange) > hangSecs*time.Second
+			limit := int64(hangSecs)
+			if sl := c.slow.Load(); sl > limit {
+				limit = sl
+			}
+			stuck := c.active.Load() && time.Since(lastChange) > time.Duration(limit)*time.Second
 			runtime.ReadMemStats(&ms)
 			fat := ms.HeapAlloc > memLimit
 			if stuck || fat {
@@ -381,7 +393,7 @@ func RunWorker(ch *Check, tier string, seed int64, shard, nshards int, resume, u
 							d = c.Describe(idx)
 						}
 					}()
-					why := "case did not finish within 20 s"
+					why := fmt.Sprintf("case did not finish within %d s", limit)
 					if fat {
 						why = "heap grew beyond 6 GiB"
 					}
